@@ -402,6 +402,16 @@ pub fn gen_valid_entry(rng: &mut Rng, cfg: &Cfg, hostile_text: bool, allow_big: 
             PVal::Metric { obs: gen_obs_list(rng), unit: *rng.pick(UNITS), dims, flags: flag_ctor(rng.below(4) as u8) },
         ));
     }
+    // now and then a WIDE entry: dozens to hundreds of distinct per-metric dimension sets (one split record each)
+    if use_dims && !allow_big && rng.below(30) == 0 {
+        let n_sets = 40 + rng.below(130);
+        for j in 0..n_sets {
+            let n = fresh(rng, &mut used);
+            any_dimmed = true;
+            let k = rng.pick(&dim_keys).clone();
+            values.push(POp::Value(n, PVal::Metric { obs: gen_obs_list(rng), unit: *rng.pick(UNITS), dims: vec![(k, format!("w{j}"))], flags: flag_ctor(rng.below(4) as u8) }));
+        }
+    }
     if rng.below(8) == 0 {
         let n = fresh(rng, &mut used);
         values.push(POp::Value(n, PVal::Nothing));
